@@ -17,6 +17,12 @@ CHECKS = {
  "C14": ("exploration", "bounded exhaustive enumeration of boundary values x every frame cut position, real encoder vs independent encoder and reference-framed payload vs real decoder",
          "E-ENUM", "Every boundary integer through every width wrapper, all chars, a structured catalogue of doubles (all exponents in thorough), all short UTF-8 strings, boundary-length strings and all sequences <= 3 of representative values, in both modes: emitted bytes must equal the independent encoder's, and the reference payload cut at every position (every pair when <= 40 bytes) must decode to the original.",
          "Doubles compared to 2^-30 relative; values outside the catalogue not covered.", "DESIGN.md §3 C14"),
+ "C08": ("exploration", "bounded exhaustive enumeration of value texts (all strings <= L over the literal alphabet) and of grammar-generated ads on the real codec, judged against the full ClassAd parser",
+         "E-ENUM", "Decode side: every string of length <= 5 (quick) / 6 (thorough) over a 17-symbol literal alphabet is put on the wire as an attribute value and read by the real decoder; it must agree with the full parser (same structure or same defined value), follow the old-style lone-string rule, or be rejected. Encode side: every expression of a bounded grammar is sent by the real PutClassAd (3 stream states, single/multi-frame, with/without type names, with a private attribute under opt-in) and read by GetClassAd, GetClassAdRaw+ParseOld and SkipClassAdRaw, each of which must consume exactly the ad (sentinel) and rebuild what the parser reads from the rendered text.",
+         "The PelicanPlatform classad parser is the reference ('full parser' of the statement); texts outside the alphabet / beyond the grammar depth are not covered.", "DESIGN.md §3 C08"),
+ "C09": ("exploration", "full-product enumeration of private-name case variants x option bits x whitelists x peer versions x stream states on the real serialiser, canary search over the wire and its independent decryption",
+         "E-ENUM", "Every case variant of the private names/prefix x all 64 option sets x 4 whitelist shapes x peer versions around 9.9.0 x {no key, encrypting, keyed-not-encrypting}: the wire bytes and their reference decryption are searched for the private name and a unique canary; without opt-in (or for old peers, reserved-prefix names) nothing may appear; on a keyed-not-encrypting stream the secret may appear only inside frames that open under the key; the real receiver must rebuild the filtered ad and stay framed.",
+         "Canary search is textual; reference decryption via refcodec; quick uses 4 of the 6 peer versions.", "DESIGN.md §3 C09"),
 }
 PENDING = "check not built yet in this session (planned, DESIGN.md section 3); listed here until its check is registered"
 def main():
